@@ -1194,7 +1194,10 @@ theorem data_runFrame (p : Prog) (hh : Hist) {s0 : St} {f : Frame} {rest : List 
     split
     · exact quiet _ [.flush] (by nb) (by intro h'; cases h') (DQ.of_same ⟨rfl, rfl, rfl⟩) rfl rfl
         (framesQuiet_one (by nb) trivial) h.wq
-    · rename_i a _
+    · rename_i t _
+      exact quiet _ [.runnerStart t .plain, .exclActs sys (i + 1)] (by nb) (by intro h'; cases h') (DQ.of_same ⟨rfl, rfl, rfl⟩) rfl rfl
+        (framesQuiet_append (a := [Frame.runnerStart t .plain]) (b := [Frame.exclActs sys (i + 1)]) (framesQuiet_one (by nb) trivial) (framesQuiet_one (by nb) trivial)) h.wq
+    · rename_i a _ _
       split
       · refine quiet _ [.flush, .exclActs sys (i + 1)] (by nb) (by intro h'; cases h')
           (DQ.right (dq_enqueue _ a h.dead hfd) ⟨rfl, rfl, rfl⟩) (by simp [St.push]) (by simp [St.push])
